@@ -13,6 +13,7 @@ type Obligation struct {
 	Props  []string
 	Guard  string
 	Prop   string
+	AltProp string // equivalent form with opaque predicates expanded; "" if same
 	Pos    string
 	Src    string // contract clause text, if any
 	Cover  bool   // expectation is "sat" (vacuity / reachability cover)
@@ -30,6 +31,15 @@ type Obligation struct {
 }
 
 type NamedTerm struct{ Name, Term string }
+
+// goal is what has to be proved: the clause with opaque predicates applied,
+// or (equivalently, under the intended interpretation) with them expanded.
+func (o *Obligation) goal() string {
+	if o.AltProp == "" {
+		return o.Prop
+	}
+	return or(o.Prop, o.AltProp)
+}
 
 type item struct {
 	line string
@@ -117,6 +127,8 @@ const prelude = `(set-option :produce-models true)
 (declare-fun slen (Str) (_ BitVec 64))
 (declare-fun sarr (Str) (Array (_ BitVec 64) (_ BitVec 8)))
 (define-fun streq ((a Str) (b Str)) Bool (= a b))
+(declare-fun at ((_ BitVec 64) (_ BitVec 64)) (_ BitVec 64))
+(assert (forall ((o (_ BitVec 64)) (i (_ BitVec 64))) (! (= (at o i) (bvadd o i)) :pattern ((at o i)))))
 `
 
 // script renders the incremental script: every obligation is checked under
@@ -140,7 +152,7 @@ func (e *Emitter) script(timeoutMs int) (string, []*Obligation) {
 		if o.Cover {
 			fmt.Fprintf(&b, "(set-option :timeout 2000)\n(assert %s)\n", and(o.Guard, o.Prop))
 		} else {
-			fmt.Fprintf(&b, "(assert (not %s))\n", implies(o.Guard, o.Prop))
+			fmt.Fprintf(&b, "(assert (not %s))\n", implies(o.Guard, o.goal()))
 		}
 		b.WriteString("(check-sat)\n(pop 1)\n")
 		if o.Cover && timeoutMs > 0 {
@@ -156,6 +168,10 @@ func (e *Emitter) script(timeoutMs int) (string, []*Obligation) {
 // standalone renders a one-shot script for obligation target (prefix +
 // negated goal), optionally restricted to / excluding its region.
 func (e *Emitter) standalone(target *Obligation, mode string, withModel bool) string {
+	return e.standaloneAlt(target, mode, withModel, false)
+}
+
+func (e *Emitter) standaloneAlt(target *Obligation, mode string, withModel bool, useAlt bool) string {
 	var b strings.Builder
 	b.WriteString(prelude)
 	for _, it := range e.items {
@@ -181,10 +197,12 @@ func (e *Emitter) standalone(target *Obligation, mode string, withModel bool) st
 	case "inside":
 		g = and(g, target.Region)
 	}
+	prop := target.goal()
+	_ = useAlt
 	if target.Cover {
-		fmt.Fprintf(&b, "(assert %s)\n", and(g, target.Prop))
+		fmt.Fprintf(&b, "(assert %s)\n", and(g, prop))
 	} else {
-		fmt.Fprintf(&b, "(assert (not %s))\n", implies(g, target.Prop))
+		fmt.Fprintf(&b, "(assert (not %s))\n", implies(g, prop))
 	}
 	b.WriteString("(check-sat)\n")
 	if withModel && len(target.Inputs) > 0 {
